@@ -232,6 +232,15 @@ func genC13World(c *Ctx) *c13world {
 			// one, each using keywords whose meaning depends on the draft in force
 			s.Kind = "mixed-draft"
 			s.Text, s.Insts = GenMixedDraft(c)
+		case 6:
+			// verdicts that hinge on annotations handed up by in-place applicators: the per-call
+			// state of Validate that concurrent calls on one Resolved must not share
+			s.Kind = "annotations"
+			doc := GenAnnotationDoc(c)
+			s.Text = JSON(doc)
+			for j, n := 0, 3+c.W(3); j < n; j++ {
+				s.Insts = append(s.Insts, GenInstanceFor(c, doc, 3))
+			}
 		case 4:
 			s.Kind = "wide"
 			doc := GenWideDoc(c)
@@ -321,7 +330,8 @@ func driveC13(c *Ctx) {
 	cold := c.W(2) == 0
 	miss := []int{0, 1, 2}[c.W(3)]
 	policy := simrt.Choose(simrt.SOrder, 0, simrt.NumOrderPolicies)
-	c.In("density=%d cold=%v miss=%d/4 order=%s", density, cold, miss, policyName(policy))
+	hot := [][2]int{{0, 1}, {1, 8}, {1, 2}}[c.W(3)] // pre-emption probability at synchronisation points
+	c.In("density=%d hot=%d/%d cold=%v miss=%d/4 order=%s", density, hot[0], hot[1], cold, miss, policyName(policy))
 
 	// The concurrent run, on fresh shared values.
 	live, why := w.build()
@@ -337,6 +347,7 @@ func driveC13(c *Ctx) {
 	simrt.SetOrderPolicy(policy)
 	simrt.SetCacheMiss(miss, 4)
 	simrt.SetPreemptDensity(density)
+	simrt.SetHotPreempt(hot[0], hot[1])
 	got := make([][]c13res, k)
 	bodies := make([]func(), k)
 	for g := range ops {
@@ -353,6 +364,7 @@ func driveC13(c *Ctx) {
 	simrt.RunConcurrent(bodies)
 	st := simrt.GetStats()
 	simrt.SetPreemptDensity(0)
+	simrt.SetHotPreempt(0, 1)
 	simrt.SetCacheMiss(0, 1)
 	simrt.SetOrderPolicy(simrt.OrderSorted)
 	// Reference: the same operations one after another on an independently built world. It is
